@@ -38,6 +38,8 @@ pub struct Work {
     /// reach `pc` with `move r2 pc; eval jmp r2` instead of `goto pc` (goto refuses addresses
     /// outside user space; a jump gets there)
     pub jump: bool,
+    /// an earlier `goto pc; eval text` in the same session (what it executes is `word`)
+    pub before: Option<(u16, String, Option<u16>)>,
 }
 
 fn pcrel_word(op: u16, r: u8, bits: u32, pc: u16, target: u16) -> Option<u16> {
@@ -72,7 +74,7 @@ pub fn workload(tier: Tier, prog: &Prog) -> Vec<Work> {
                         (Stmt::Not(d, a), 0x9000 | (d as u16) << 9 | (a as u16) << 6 | 0x3F),
                     ] {
                         for vb in [0x0001u16, 0xFFFF] {
-                            w.push(Work { space: "alu", regs: vec![(a, *va), (1, vb)], pc, text: stmt_text(&stmt, &lay), word: Some(word), open: None, jump: false });
+                            w.push(Work { space: "alu", regs: vec![(a, *va), (1, vb)], pc, text: stmt_text(&stmt, &lay), word: Some(word), open: None, jump: false, before: None });
                         }
                     }
                 }
@@ -84,9 +86,9 @@ pub fn workload(tier: Tier, prog: &Prog) -> Vec<Work> {
         for off in [-32i32, -1, 0, 1, 31] {
             for base in [prog.addr_of("cell"), prog.addr_of("after"), 0xFFFF, 0x0000] {
                 let b = (base as i32 - off) as u16;
-                w.push(Work { space: "base+offset", regs: vec![(2, b), (4, 0x4242)], pc, text: format!("ldr r4 r2 #{off}"), word: Some(0x6000 | 4 << 9 | 2 << 6 | (off as u16 & 0x3F)), open: None, jump: false });
+                w.push(Work { space: "base+offset", regs: vec![(2, b), (4, 0x4242)], pc, text: format!("ldr r4 r2 #{off}"), word: Some(0x6000 | 4 << 9 | 2 << 6 | (off as u16 & 0x3F)), open: None, jump: false, before: None });
                 if base >= orig && base < 0xFE00 {
-                    w.push(Work { space: "base+offset", regs: vec![(2, b), (4, 0x4242)], pc, text: format!("str r4 r2 #{off}"), word: Some(0x7000 | 4 << 9 | 2 << 6 | (off as u16 & 0x3F)), open: None, jump: false });
+                    w.push(Work { space: "base+offset", regs: vec![(2, b), (4, 0x4242)], pc, text: format!("str r4 r2 #{off}"), word: Some(0x7000 | 4 << 9 | 2 << 6 | (off as u16 & 0x3F)), open: None, jump: false, before: None });
                 }
             }
         }
@@ -100,10 +102,10 @@ pub fn workload(tier: Tier, prog: &Prog) -> Vec<Work> {
                     continue; // STI through a data word that is not a pointer into user space writes anywhere
                 }
                 let _ = store;
-                w.push(Work { space: "label-operand", regs: vec![(5, 0x5151)], pc: *pc, text: format!("{m} r5 {label}"), word: pcrel_word(op, 5, 9, *pc, target), open: None, jump: false });
+                w.push(Work { space: "label-operand", regs: vec![(5, 0x5151)], pc: *pc, text: format!("{m} r5 {label}"), word: pcrel_word(op, 5, 9, *pc, target), open: None, jump: false, before: None });
             }
-            w.push(Work { space: "label-operand/jsr", regs: vec![], pc: *pc, text: format!("jsr {label}"), word: pcrel_word(0x4800, 0, 11, *pc, target).map(|x| x & 0x4FFF | 0x4800), open: Some(7), jump: false });
-            w.push(Work { space: "label-operand/call", regs: vec![], pc: *pc, text: format!("call {label}"), word: pcrel_word(0xDC00, 0, 10, *pc, target).map(|x| x & 0x03FF | 0xDC00), open: Some(8), jump: false });
+            w.push(Work { space: "label-operand/jsr", regs: vec![], pc: *pc, text: format!("jsr {label}"), word: pcrel_word(0x4800, 0, 11, *pc, target).map(|x| x & 0x4FFF | 0x4800), open: Some(7), jump: false, before: None });
+            w.push(Work { space: "label-operand/call", regs: vec![], pc: *pc, text: format!("call {label}"), word: pcrel_word(0xDC00, 0, 10, *pc, target).map(|x| x & 0x03FF | 0xDC00), open: Some(8), jump: false, before: None });
         }
     }
     // 3b. the same with the PC outside the program: below the origin (reached by a jump; `goto`
@@ -113,26 +115,39 @@ pub fn workload(tier: Tier, prog: &Prog) -> Vec<Work> {
         for (label, _) in &prog.image.labels {
             let target = prog.addr_of(label);
             for (m, op) in [("ld", 0x2000u16), ("lea", 0xE000), ("st", 0x3000)] {
-                w.push(Work { space: "label-operand/pc-outside-program", regs: vec![(5, 0x5151)], pc, text: format!("{m} r5 {label}"), word: pcrel_word(op, 5, 9, pc, target), open: None, jump: true });
+                w.push(Work { space: "label-operand/pc-outside-program", regs: vec![(5, 0x5151)], pc, text: format!("{m} r5 {label}"), word: pcrel_word(op, 5, 9, pc, target), open: None, jump: true, before: None });
             }
-            w.push(Work { space: "label-operand/pc-outside-program", regs: vec![], pc, text: format!("jsr {label}"), word: pcrel_word(0x4800, 0, 11, pc, target).map(|x| x & 0x4FFF | 0x4800), open: Some(7), jump: true });
+            w.push(Work { space: "label-operand/pc-outside-program", regs: vec![], pc, text: format!("jsr {label}"), word: pcrel_word(0x4800, 0, 11, pc, target).map(|x| x & 0x4FFF | 0x4800), open: Some(7), jump: true, before: None });
+        }
+    }
+    // 3c. the same text evaluated twice in one session at two different PCs (and two different
+    // texts at the same PC): nothing may be remembered from one eval to the next
+    for (a, b) in [(orig, orig + 2), (orig + 5, orig + 1), (orig + 3, orig + 3)] {
+        for (label, _) in &prog.image.labels {
+            let target = prog.addr_of(label);
+            for (m, op) in [("ld", 0x2000u16), ("lea", 0xE000), ("st", 0x3000)] {
+                let text = format!("{m} r5 {label}");
+                w.push(Work { space: "label-operand/evaluated-twice", regs: vec![(5, 0x5151)], pc: b, text: text.clone(), word: pcrel_word(op, 5, 9, b, target), open: None, jump: false, before: Some((a, text.clone(), pcrel_word(op, 5, 9, a, target))) });
+                let other = format!("{m} r4 {label}");
+                w.push(Work { space: "label-operand/evaluated-twice", regs: vec![(5, 0x5151)], pc: b, text: text.clone(), word: pcrel_word(op, 5, 9, b, target), open: None, jump: false, before: Some((a, other, pcrel_word(op, 4, 9, a, target))) });
+            }
         }
     }
     // 4. jumps through registers, stack instructions, traps that print
     for pc in [orig, orig + 3] {
         for v in [orig, orig + 5, 0xFFFF, 0x0000] {
-            w.push(Work { space: "jump", regs: vec![(2, v)], pc, text: "jmp r2".into(), word: Some(0xC080), open: None, jump: false });
-            w.push(Work { space: "jump", regs: vec![(2, v)], pc, text: "jsrr r2".into(), word: Some(0x4080), open: Some(7), jump: false });
-            w.push(Work { space: "jump", regs: vec![(7, v)], pc, text: "ret".into(), word: Some(0xC1C0), open: None, jump: false });
+            w.push(Work { space: "jump", regs: vec![(2, v)], pc, text: "jmp r2".into(), word: Some(0xC080), open: None, jump: false, before: None });
+            w.push(Work { space: "jump", regs: vec![(2, v)], pc, text: "jsrr r2".into(), word: Some(0x4080), open: Some(7), jump: false, before: None });
+            w.push(Work { space: "jump", regs: vec![(7, v)], pc, text: "ret".into(), word: Some(0xC1C0), open: None, jump: false, before: None });
         }
-        w.push(Work { space: "stack", regs: vec![(3, 0x3333)], pc, text: "push r3".into(), word: Some(0xD4C0), open: None, jump: false });
-        w.push(Work { space: "stack", regs: vec![(7, prog.addr_of("after"))], pc, text: "pop r3".into(), word: Some(0xD0C0), open: None, jump: false });
-        w.push(Work { space: "stack", regs: vec![(7, prog.addr_of("ptra"))], pc, text: "rets".into(), word: Some(0xD800), open: None, jump: false });
-        w.push(Work { space: "trap", regs: vec![(0, 0x0041)], pc, text: "out".into(), word: Some(0xF021), open: None, jump: false });
-        w.push(Work { space: "trap", regs: vec![(0, prog.addr_of("msg"))], pc, text: "puts".into(), word: Some(0xF022), open: None, jump: false });
-        w.push(Work { space: "trap", regs: vec![(0, 0xFFFE)], pc, text: "putn".into(), word: Some(0xF026), open: None, jump: false });
-        w.push(Work { space: "trap", regs: vec![(0, 0x0007)], pc, text: "reg".into(), word: Some(0xF027), open: None, jump: false });
-        w.push(Work { space: "trap", regs: vec![(0, 0x0042)], pc, text: "trap x21".into(), word: Some(0xF021), open: None, jump: false });
+        w.push(Work { space: "stack", regs: vec![(3, 0x3333)], pc, text: "push r3".into(), word: Some(0xD4C0), open: None, jump: false, before: None });
+        w.push(Work { space: "stack", regs: vec![(7, prog.addr_of("after"))], pc, text: "pop r3".into(), word: Some(0xD0C0), open: None, jump: false, before: None });
+        w.push(Work { space: "stack", regs: vec![(7, prog.addr_of("ptra"))], pc, text: "rets".into(), word: Some(0xD800), open: None, jump: false, before: None });
+        w.push(Work { space: "trap", regs: vec![(0, 0x0041)], pc, text: "out".into(), word: Some(0xF021), open: None, jump: false, before: None });
+        w.push(Work { space: "trap", regs: vec![(0, prog.addr_of("msg"))], pc, text: "puts".into(), word: Some(0xF022), open: None, jump: false, before: None });
+        w.push(Work { space: "trap", regs: vec![(0, 0xFFFE)], pc, text: "putn".into(), word: Some(0xF026), open: None, jump: false, before: None });
+        w.push(Work { space: "trap", regs: vec![(0, 0x0007)], pc, text: "reg".into(), word: Some(0xF027), open: None, jump: false, before: None });
+        w.push(Work { space: "trap", regs: vec![(0, 0x0042)], pc, text: "trap x21".into(), word: Some(0xF021), open: None, jump: false, before: None });
     }
     // 5. refused: off-limits instructions and text that is not exactly one well-formed instruction
     let refused = [
@@ -151,18 +166,18 @@ pub fn workload(tier: Tier, prog: &Prog) -> Vec<Work> {
                 continue; // `;` separates debugger commands: a comment cannot be written inside one
             }
             let blank = tok == ",";
-            w.push(Work { space: "surplus-token", regs: vec![(r, v)], pc: orig + 1, text: format!("{base} {tok}"), word: if blank { Some(word) } else { None }, open: None, jump: false });
+            w.push(Work { space: "surplus-token", regs: vec![(r, v)], pc: orig + 1, text: format!("{base} {tok}"), word: if blank { Some(word) } else { None }, open: None, jump: false, before: None });
             if !blank {
-                w.push(Work { space: "surplus-token", regs: vec![(r, v)], pc: orig + 1, text: format!("{tok} {base}"), word: None, open: None, jump: false });
+                w.push(Work { space: "surplus-token", regs: vec![(r, v)], pc: orig + 1, text: format!("{tok} {base}"), word: None, open: None, jump: false, before: None });
             }
         }
         for tok in [".END", ".end add r2 r2 #2", ".end \"oops", ".orig x3000", ".break"] {
-            w.push(Work { space: "surplus-token", regs: vec![(r, v)], pc: orig + 1, text: format!("{base} {tok}"), word: None, open: None, jump: false });
+            w.push(Work { space: "surplus-token", regs: vec![(r, v)], pc: orig + 1, text: format!("{base} {tok}"), word: None, open: None, jump: false, before: None });
         }
     }
     for pc in [orig, orig + 4] {
         for text in refused {
-            w.push(Work { space: "refused", regs: vec![(0, 0x0011)], pc, text: text.to_string(), word: None, open: None, jump: false });
+            w.push(Work { space: "refused", regs: vec![(0, 0x0011)], pc, text: text.to_string(), word: None, open: None, jump: false, before: None });
         }
     }
     w
@@ -172,6 +187,10 @@ pub fn judge(prog: &Prog, wk: &Work) -> Result<Pause, Mismatch> {
     let mut owned: Vec<Action> = Vec::new();
     for (r, v) in &wk.regs {
         owned.push(Action::of(Cmd::MoveReg(*r, *v)));
+    }
+    if let Some((pc0, text0, word0)) = &wk.before {
+        owned.push(Action::of(Cmd::Goto(Loc::Abs(*pc0))));
+        owned.push(Action::eval(text0, *word0));
     }
     if wk.jump {
         owned.push(Action::of(Cmd::MoveReg(2, wk.pc)));
@@ -253,7 +272,7 @@ pub fn run(ctx: &Ctx) -> i32 {
         ctx,
         acc,
         Level { category: "model_checking", bfs: None },
-        "bounded-exhaustive enumeration of `move ...; goto a; eval <text>; move r6 #123; exit` sessions on a host program with labels before and after every PC: ALU forms over register fields x covering operand values at two PCs; LDR/STR with offsets at the field limits and bases at both ends of memory; LD/LDI/LEA/ST/STI/JSR/CALL with a label operand for every label x EVERY current PC of the program, and LD/LEA/ST/JSR for every label with the PC outside the program (below the origin - reached with `eval jmp`, since goto refuses it - above the program, x0000, xFFFE); JMP/JSRR/RET, PUSH/POP/RETS, printing traps; 66 malformed or off-limits texts, and three instructions followed or preceded by each token of a 32-token alphabet (every lexical kind incl. every directive) (BR*, RTI, HALT, trap vectors outside x20-x27, missing / surplus / wrong-kind operands, two instructions, directives, non-instructions). Oracle: reference executes the ISA encoding of the instruction with label operands denoting the label's address and PC unchanged unless the instruction jumps; R7 written by JSR/JSRR and the word pushed by CALL are left open; refused texts leave all state unchanged and the following `move r6` still takes effect. non-trivial = sessions that agreed",
+        "bounded-exhaustive enumeration of `move ...; goto a; eval <text>; move r6 #123; exit` sessions on a host program with labels before and after every PC: ALU forms over register fields x covering operand values at two PCs; LDR/STR with offsets at the field limits and bases at both ends of memory; LD/LDI/LEA/ST/STI/JSR/CALL with a label operand for every label x EVERY current PC of the program, and LD/LEA/ST/JSR for every label with the PC outside the program (below the origin - reached with `eval jmp`, since goto refuses it - above the program, x0000, xFFFE), and the same and a similar text evaluated twice in one session at different PCs; JMP/JSRR/RET, PUSH/POP/RETS, printing traps; 66 malformed or off-limits texts, and three instructions followed or preceded by each token of a 32-token alphabet (every lexical kind incl. every directive) (BR*, RTI, HALT, trap vectors outside x20-x27, missing / surplus / wrong-kind operands, two instructions, directives, non-instructions). Oracle: reference executes the ISA encoding of the instruction with label operands denoting the label's address and PC unchanged unless the instruction jumps; R7 written by JSR/JSRR and the word pushed by CALL are left open; refused texts leave all state unchanged and the following `move r6` still takes effect. non-trivial = sessions that agreed",
         true,
         &["executed-and-equal", "refused-and-alive", "label-operand-away-from-origin", "label-operand-with-pc-below-origin"],
         &["literal PC offsets are not generated (unspecified by the property)"],
